@@ -42,6 +42,18 @@ func checkLayoutSeq(prog *core.Program, rr *core.RuleRun, rel, typ string, spec 
 				diff := compareSeq(p, spec)
 				rr.Check(diff == "", core.FuncName(f)+":layout", f.Pos(), fmt.Sprintf("%s: %d fields, %d octets, in format order", what, len(spec), p.total()), what+": "+diff)
 			}
+			// a field of the format holds what was read for it: no other assignment (masking, scaling, defaulting) follows
+			specField := map[string]bool{}
+			for _, sf := range spec {
+				specField[sf.Name] = true
+			}
+			for _, p := range ps {
+				for _, e := range p.Events {
+					if e.Kind == "set" && specField[e.Dest] {
+						rr.Fail(core.FuncName(f)+":rewrites:"+e.Dest, e.Pos, fmt.Sprintf("%s: field %s is assigned %s after (or instead of) being read: the decoded value is no longer the octets on the wire", what, e.Dest, e.Value))
+					}
+				}
+			}
 			// one instance per field for the evidence
 			if len(ps) == 1 && compareSeq(ps[0], spec) == "" {
 				for _, e := range ps[0].reads() {
